@@ -73,7 +73,7 @@ struct Outcome {
     error: Option<String>,
 }
 
-fn run_word(word: &[u8], ending: usize, with_shx: bool, sa: &Shape, sb: &Shape, rep: &mut Report) -> Outcome {
+fn run_word(word: &[u8], ending: usize, with_shx: bool, sa: &Shape, sb: &Shape, foreign: &Shape, rep: &mut Report) -> Outcome {
     let a = Dest::new();
     let b = Dest::new();
     let mut rules: BTreeSet<&'static str> = BTreeSet::new();
@@ -158,6 +158,39 @@ fn run_word(word: &[u8], ending: usize, with_shx: bool, sa: &Shape, sb: &Shape, 
                     }
                     drop(w);
                 }
+                4 => {
+                    // a write that is REFUSED (shape of another type) commits nothing: a finalize right
+                    // after it has exactly as much to do as it had before
+                    a.set_epoch(9998);
+                    b.set_epoch(9998);
+                    let refused = !written.is_empty() && write_one(&mut w, foreign).is_err();
+                    a.set_epoch(9999);
+                    b.set_epoch(9999);
+                    if let Err(e) = w.finalize() {
+                        error = Some(format!("final finalize: {}", err_class(&e)));
+                    }
+                    if refused && clean && (!a.ops_in_epoch(9999).is_empty() || (with_shx && !b.ops_in_epoch(9999).is_empty())) {
+                        rules.insert("noop-finalize-does-io(after a refused write)");
+                    }
+                    if refused {
+                        rep.count("finalizes_after_a_refused_write_observed", 1);
+                    }
+                    drop(w);
+                }
+                5 => {
+                    // the consuming bulk route given nothing: with nothing new to commit it performs no I/O
+                    let res = with_concrete!(sa, x => {
+                        let mut none = vec![x];
+                        none.clear();
+                        w.write_shapes(none)
+                    });
+                    if let Err(e) = res {
+                        error = Some(format!("write_shapes(nothing): {}", err_class(&e)));
+                    }
+                    if clean && (!a.ops_in_epoch(9999).is_empty() || (with_shx && !b.ops_in_epoch(9999).is_empty())) {
+                        rules.insert("noop-finalize-does-io(write_shapes of nothing)");
+                    }
+                }
                 2 => {
                     let tail = [sa, sb];
                     if let Err(e) = write_tail(w, &tail) {
@@ -180,7 +213,7 @@ fn run_word(word: &[u8], ending: usize, with_shx: bool, sa: &Shape, sb: &Shape, 
             }
         }
     }
-    if error.is_none() && clean_at_end && ending == 0 {
+    if error.is_none() && clean_at_end && (ending == 0 || ending == 3) {
         // dropped right after a successful finalize: the implicit finalize has nothing new to
         // commit either and performs no I/O
         rep.count("drops_right_after_a_finalize_observed", 1);
@@ -288,7 +321,17 @@ fn on_disk(t: i32, word: &[u8], sa: &Shape, sb: &Shape, dir: &str, case: &str, r
 
 pub fn run(ctx: &Ctx) -> Report {
     let max_len = if cfg!(miri) { 3 } else { ctx.pick(6, 9) };
-    let words = all_words(max_len);
+    let mut words = all_words(max_len);
+    if !cfg!(miri) {
+        // more than 255 writes on one writer, with a finalize before, in the middle and after
+        words.push([F].iter().cloned().chain((0..260).map(|k| if k % 2 == 0 { WA } else { WB })).collect());
+        words.push((0..300).map(|k| if k % 3 == 0 { WB } else { WA }).chain([F, WB, WB, F]).collect());
+        words.push((0..130).map(|_| WA).chain([F]).chain((0..130).map(|_| WB)).collect());
+        for n in [255usize, 256, 257, 512] {
+            words.push([F].iter().cloned().chain((0..n).map(|_| WA)).collect());
+            words.push((0..n).map(|_| WA).chain([F, WB]).collect());
+        }
+    }
     let dir = format!("{}/files", ctx.out);
     if !cfg!(miri) {
         std::fs::create_dir_all(&dir).expect("harness: mkdir");
@@ -319,11 +362,14 @@ pub fn run(ctx: &Ctx) -> Report {
         } else {
             (sa, sb)
         };
+        // a shape of another type, for the refused write of ending 4
+        let ft = TYPES[(TYPES.iter().position(|x| *x == t).unwrap() + 4) % TYPES.len()];
+        let foreign = gen::shape(ft, &mut r, &crate::gen::Cfg::plain(2, 3));
         for (wi, word) in words.iter().enumerate() {
             if wi % blocks != block {
                 continue;
             }
-            for ending in 0..4 {
+            for ending in 0..6 {
                 let case = format!("c09:t{}:x{}:w{}:e{}{}", t, with_shx as u8, wi, ending, [ "", ":inf", ":nan", ":nan-xy"][variant]);
                 if !ctx.want(&case) {
                     continue;
@@ -332,12 +378,12 @@ pub fn run(ctx: &Ctx) -> Report {
                 let class = structural_class(word, ending);
                 rep.class(class);
                 rep.nontrivial(&case);
-                let out = panicmon::catch(|| run_word(word, ending, with_shx, &sa, &sb, rep));
+                let out = panicmon::catch(|| run_word(word, ending, with_shx, &sa, &sb, &foreign, rep));
                 let detail = |extra: Vec<(&str, J)>| {
                     let mut v = vec![
                         ("type", J::s(type_name(t))),
                         ("word", J::s(word_str(word))),
-                        ("ending", J::s(["drop", "finalize+drop", "write_shapes([a,b])", "drop while the caller's panic unwinds"][ending])),
+                        ("ending", J::s(["drop", "finalize+drop", "write_shapes([a,b])", "drop while the caller's panic unwinds", "a refused write, finalize, drop", "write_shapes(nothing)"][ending])),
                         ("with_index", J::Bool(with_shx)),
                     ];
                     v.extend(extra);
@@ -367,6 +413,42 @@ pub fn run(ctx: &Ctx) -> Report {
             }
         }
     });
+    // ---- a writer whose shapes all report NullShape (user-defined): finalizes in between change nothing
+    for with_shx in [false, true] {
+        for word in [vec![WA, F, WA], vec![F, WA, WA, F, WA, F], vec![WA, WA, F, F, WA]] {
+            let case = format!("c09:user-null:x{}:{}", with_shx as u8, word_str(&word));
+            if !ctx.want(&case) {
+                continue;
+            }
+            rep.eval();
+            let run = |with_f: bool| -> Result<(Vec<u8>, Vec<u8>), String> {
+                let (a, b) = (Dest::new(), Dest::new());
+                {
+                    let mut w = if with_shx { ShapeWriter::with_shx(a.clone(), b.clone()) } else { ShapeWriter::new(a.clone()) };
+                    for &l in &word {
+                        if l == F {
+                            if with_f {
+                                w.finalize().map_err(|e| err_class(&e))?;
+                            }
+                        } else {
+                            w.write_shape(&crate::e_c10::UserNull).map_err(|e| err_class(&e))?;
+                        }
+                    }
+                }
+                Ok((a.data(), b.data()))
+            };
+            match panicmon::catch(|| (run(true), run(false))) {
+                Err(p) => rep.violation("user-null-writer:panic", &case, J::s(p.class())),
+                Ok((Ok(x), Ok(y))) => {
+                    rep.count("user_defined_nullshape_writer_histories", 1);
+                    if x != y {
+                        rep.violation("user-null-writer:final-bytes", &case, J::obj(vec![("word", J::s(word_str(&word))), ("what", J::s("the files differ from those of the same writes without the finalize calls"))]));
+                    }
+                }
+                Ok((a, b)) => rep.violation("user-null-writer:error", &case, J::s(format!("{:?} / {:?}", a.err(), b.err()))),
+            }
+        }
+    }
     if ctx.only.is_none() {
         let e = rep.evaluations;
         rep.guard("histories enumerated", e, (types.len() * 2 * words.len() * 4) as u64);  // variant 1 adds to this
